@@ -136,6 +136,11 @@ impl Report {
                 eprintln!("  [all] {}", v.what);
             }
         }
+        if std::env::var("VERIF_VERBOSE").as_deref() == Ok("2") {
+            for v in &self.violations {
+                eprintln!("  [tagged] {:?} {}", v.tags, v.what);
+            }
+        }
         // replay files for unknown violations (at most 5, deduplicated by
         // `what`)
         let mut lines = Vec::new();
